@@ -69,7 +69,7 @@ Section G.
     ver <= 1 -> (height t <= 129)%nat ->
     exists p, verify H ver (root_hash H t) (root_hash H t) (gbuild H ver inc [] t) = ROk p /\
               (prunes H p t \/ collision H) /\
-              (p = gprune [] t \/ root_hash H t = H []).
+              (p = gprune [] t \/ (p = PNil /\ root_hash H t = H [])).
   Proof.
     intros Hv Hh. unfold verify.
     destruct (N.ltb_spec 1 ver) as [L|_]; [lia|].
